@@ -373,6 +373,62 @@ class CorrResult:
         self.distribution[key] = self.distribution.get(key, 0) + k
 
 
+# ----------------------------------------------------------------------------------------------
+# source fingerprints (DESIGN 2.9): which anchored source files differ from the tree the hand models were written
+# against.  A changed fingerprint fails nothing - the behavioural tie decides - but the run then repeats its
+# correspondence stage with further seeds, so that rewritten code is compared harder exactly when it matters.
+
+FINGERPRINTS = os.path.join(VERIF, "harness", "fingerprints.json")
+
+
+def anchor_files(pid):
+    files = []
+    with open(os.path.join(VERIF, "properties.jsonl")) as f:
+        for l in f:
+            p = json.loads(l)
+            if p["id"] == pid:
+                files = list((p.get("anchors") or {}).get("files") or [])
+    return files
+
+
+def source_fingerprint(rel):
+    """sha1 of the normalised AST (insensitive to comments and layout) of a file of the working tree"""
+    import ast
+    path = os.path.join(REPO, rel)
+    try:
+        with open(path) as f:
+            return hashlib.sha1(ast.dump(ast.parse(f.read())).encode()).hexdigest()
+    except (OSError, SyntaxError) as e:
+        return "unreadable:" + type(e).__name__
+
+
+def changed_sources(pid, extra=()):
+    try:
+        with open(FINGERPRINTS) as f:
+            known = json.load(f)
+    except (OSError, ValueError):
+        known = {}
+    files = sorted(set(anchor_files(pid)) | set(extra))
+    return files, [r for r in files if known.get(r) != source_fingerprint(r)]
+
+
+def merge_corr(a, b):
+    """accumulate a further correspondence round b into a"""
+    a.evaluations += b.evaluations
+    a.distinct |= set(b.distinct)
+    a.mismatches += b.mismatches
+    a.oracle_failures += b.oracle_failures
+    a.traces += b.traces
+    a.boundary += b.boundary
+    for k, v in b.distribution.items():
+        a.distribution[k] = a.distribution.get(k, 0) + v
+    a.notes += [n for n in b.notes if n not in a.notes]
+    a.samples = a.samples or b.samples
+    a.rule = a.rule or b.rule
+    a.error = a.error or b.error
+    return a
+
+
 class Prop:
     pid = "C00"
     title = ""
@@ -382,6 +438,7 @@ class Prop:
     trusted = []
     partial = []  # names of *_partial theorems with what is missing
     level = "proof"
+    extra_sources = []  # further files of /repo (relative paths) whose change should intensify the correspondence
 
     def generate(self, ctx):
         """S1. Raise GenError to fail closed."""
@@ -437,12 +494,23 @@ def run_check(prop, tier, seed):
             proof.obligations += [n for (n, _l, k) in theorems_in(os.path.join(COQ, pf)) if k == "Theorem"]
         proof.ok = False
 
-    # S3
-    try:
-        corr = prop.correspond(ctx)
-    except Exception as e:
-        corr = CorrResult()
-        corr.error = "correspondence harness raised %s: %s\n%s" % (type(e).__name__, e, traceback.format_exc()[-2500:])
+    # S3 (repeated with further seeds when anchored sources differ from the fingerprinted tree)
+    fp_files, fp_changed = changed_sources(prop.pid, prop.extra_sources)
+    rounds = 3 if fp_changed else 1
+    if fp_changed:
+        ctx.log("source fingerprints changed (%s): %d correspondence rounds" % (", ".join(fp_changed), rounds))
+    corr = None
+    for rnd in range(rounds):
+        if rnd:
+            ctx.rng = random.Random((seed + 7919 * rnd) * 1000003 + int(hashlib.sha1(prop.pid.encode()).hexdigest()[:6], 16))
+        try:
+            c = prop.correspond(ctx)
+        except Exception as e:
+            c = CorrResult()
+            c.error = "correspondence harness raised %s: %s\n%s" % (type(e).__name__, e, traceback.format_exc()[-2500:])
+        corr = c if corr is None else merge_corr(corr, c)
+        if corr.error:
+            break
     if corr.error:
         ctx.log("S3 BROKEN:", corr.error)
         broken.append(dict(kind="correspondence-harness", what=corr.error[-1500:]))
@@ -519,6 +587,7 @@ def run_check(prop, tier, seed):
             broken_obligations=broken,
             known_findings_reported=known_lines,
             notes=corr.notes,
+            source_fingerprints=dict(files=fp_files, changed=fp_changed, correspondence_rounds=rounds),
         ),
         assumptions=trusted,
         wall_s=round(wall, 2),
